@@ -734,6 +734,20 @@ func replUndefined(s []byte) bool {
 	return false
 }
 
+// nestedPatternCalls runs two gsub calls of its own on the text of k (string and table replacement, at most one
+// and len(k) matches) from inside a replacement callback of an outer gsub, and drops their results.
+func nestedPatternCalls(L *lua.LState, gsub lua.LValue, k lua.LValue) {
+	ks := lua.LString(k.String())
+	top := L.GetTop()
+	if err := L.CallByParam(lua.P{Fn: gsub, NRet: 2, Protect: true}, ks, lua.LString("^."), lua.LString("#")); err != nil {
+		panic("nested gsub failed: " + err.Error())
+	}
+	if err := L.CallByParam(lua.P{Fn: gsub, NRet: 2, Protect: true}, ks, lua.LString("."), L.NewTable()); err != nil {
+		panic("nested gsub failed: " + err.Error())
+	}
+	L.SetTop(top)
+}
+
 func checkGsub(c *fw.Ctx, e *env, cs *Case, inf *lpat.Info, sv, pv lua.LValue) (r result) {
 	r.cls = inf.Class
 	rs := cs.Repl
@@ -762,6 +776,21 @@ func checkGsub(c *fw.Ctx, e *env, cs *Case, inf *lpat.Info, sv, pv lua.LValue) (
 			}
 		}
 		rv = t
+		if (len(cs.Sub)+len(cs.Pat))%2 == 1 {
+			// every other case reaches the entries through an __index handler that itself runs pattern
+			// functions on the key before answering: a replacement lookup may run arbitrary code, and the
+			// outer gsub must not keep anything where a nested call can overwrite it
+			proxy, mt := e.L.NewTable(), e.L.NewTable()
+			mt.RawSetString("__index", e.L.NewFunction(func(L *lua.LState) int {
+				k := L.Get(2)
+				nestedPatternCalls(L, e.gsub, k)
+				L.Push(t.RawGet(k))
+				return 1
+			}))
+			e.L.SetMetatable(proxy, mt)
+			rv = proxy
+			c.Count("gsub_table_through_reentrant___index", 1)
+		}
 	case "f":
 		rep.Call = func(args []lpat.Value) lpat.RVal {
 			wantCalls = append(wantCalls, valsStr(args))
@@ -787,6 +816,9 @@ func checkGsub(c *fw.Ctx, e *env, cs *Case, inf *lpat.Info, sv, pv lua.LValue) (
 				}
 			}
 			gotCalls = append(gotCalls, lvStr(raw))
+			if rs.FSeed%2 == 1 && len(raw) > 0 {
+				nestedPatternCalls(L, e.gsub, raw[0])
+			}
 			res := fnResult(rs.FSeed, args)
 			if res.K == "none" {
 				return 0
